@@ -210,6 +210,11 @@ void harness_visibility(void)
 	struct sent *gr = last_of(&P1, K_RESPONSE);
 	CHECK(gr && gr->has_result, "C08.get_answered");
 #if VISCASE == 0
+	CHECK(gr && gr->result_items == 1, "C08.get_lists_elements_of_the_peers_groups");
+#else
+	CHECK(gr && gr->result_items == 0, "C08.get_hides_elements_of_other_groups");
+#endif
+#if VISCASE == 0
 	CHECK(saw_add == 1, "C08.member_of_fetch_group_sees_element");
 	CHECK(routed == 1 && !set_answered, "C08.member_of_set_group_may_set");
 #else
